@@ -43,7 +43,7 @@ func mkConfig(router string) *config.Config {
 }
 
 // pool of announced names: shared prefixes, one name equal to a router's own routing prefix
-var pfxPoolStr = []string{"/a", "/a/b", "/a/b/c", "/a/c", "/b", "/b/1", "/net/x", "/net/pub/32=DV", "/c/%00", "/c/long/er/na/me", "/d", "/e"}
+var pfxPoolStr = []string{"/a", "/a/b", "/a/32=b", "/a/b/c", "/a/c", "/b", "/b/1", "/net/x", "/net/pub/32=DV", "/c/%00", "/c/long/er/na/me", "/d", "/e"}
 
 type pfxPeer struct {
 	r        *dv.Router
@@ -54,17 +54,18 @@ type pfxPeer struct {
 }
 
 type pfxCase struct {
-	w        *bufio.Writer
-	pool     []enc.Name
-	pubName  enc.Name
-	pubCfg   *config.Config
-	pubEng   *fakeEngine
-	pubPT    *table.PrefixTable
-	pubRtr   *dv.Router // non-nil when the publisher lives inside a dv.Router (kind "r")
-	peers    map[int]*pfxPeer
-	snapWire map[uint64]enc.Wire // harness-side cache: snapshot packets seen at the SNAP pointer, by sequence number
-	nbName   enc.Name
-	seedBase int64
+	w          *bufio.Writer
+	pool       []enc.Name
+	pubName    enc.Name
+	pubCfg     *config.Config
+	pubEng     *fakeEngine
+	pubPT      *table.PrefixTable
+	pubRtr     *dv.Router // non-nil when the publisher lives inside a dv.Router (kind "r")
+	peers      map[int]*pfxPeer
+	snapWire   map[uint64]enc.Wire // harness-side cache: snapshot packets seen at the SNAP pointer, by sequence number
+	nbName     enc.Name
+	seedBase   int64
+	collisions []string // reported after the case header
 }
 
 func (c *pfxCase) poolID(n enc.Name) int {
@@ -96,7 +97,8 @@ func newPfxCase(w *bufio.Writer, s0 uint64, kind string, seed int64) *pfxCase {
 	seen := map[uint64]string{}
 	for _, n := range c.pool {
 		if o, ok := seen[n.Hash()]; ok && o != n.String() {
-			panic("hash collision in the generated universe")
+			// the model assumes collision freedom on the universe: report, and go on (the tables will conflate the two)
+			c.collisions = append(c.collisions, fmt.Sprintf("obs hashcollision %s %s", o, n.String()))
 		}
 		seen[n.Hash()] = n.String()
 	}
@@ -188,6 +190,10 @@ func dataSeq(wire enc.Wire) (uint64, ndn.Data, enc.Wire) {
 }
 
 func (c *pfxCase) obsPub() {
+	for _, l := range c.collisions {
+		fmt.Fprintln(c.w, l)
+	}
+	c.collisions = nil
 	me := c.pubPT.Vf19Me()
 	var ids []int
 	for _, e := range me.Prefixes {
@@ -256,8 +262,10 @@ func (c *pfxCase) obsPeer(j int) {
 }
 
 // resolve turns the symbolic last argument of jsync / ans into a number:
-//   jsync j c+K | c-K | =V     (c = the publisher's current sequence number)
-//   ans j - | sK                (sK = the K-th most recent snapshot packet the harness cache has seen, s0 = newest)
+//
+//	jsync j c+K | c-K | =V     (c = the publisher's current sequence number)
+//	ans j - | sK                (sK = the K-th most recent snapshot packet the harness cache has seen, s0 = newest)
+//
 // Symbolic forms keep a recorded history meaningful when operations are removed from it (shrinking).
 func (c *pfxCase) resolve(f []string) string {
 	switch f[0] {
@@ -536,6 +544,45 @@ func genPfxCase(w *bufio.Writer, rng *rand.Rand, k int, budget int) []string {
 				}
 			}
 		}
+	}
+	fmt.Fprintln(w, "end")
+	return ops
+}
+
+// sweepOffsets: a late joiner exactly d publications behind (around one and two snapshot periods of the probed cadence)
+var sweepOffsets = []int{95, 96, 97, 98, 99, 100, 101, 102, 103, 104, 105, 196, 197, 198, 199, 200, 201, 202, 203, 204, 205, 206}
+
+// genSweepCase: the publisher publishes exactly d operations, then a fresh peer hears the current number and the real
+// fetch loop is driven (answer from the publisher, deliver) until nothing is pending, at most 140 fetches. The runner's
+// catch-up oracle (peer_catches_up: fetch_threshold + 2 answered fetches) judges the implementation's observations.
+func genSweepCase(w *bufio.Writer, rng *rand.Rand, k int, d int) []string {
+	s0 := []uint64{0, 0, 57, 1000}[rng.Intn(4)]
+	c := newPfxCase(w, s0, "t", rng.Int63())
+	hdr := fmt.Sprintf("case pfx %d %d t", k, c.pubPT.Vf19Me().Latest)
+	fmt.Fprintln(w, hdr)
+	ops := []string{hdr}
+	c.obsPub()
+	do := func(op string) { ops = append(ops, op); c.exec(op) }
+	in := map[int]bool{}
+	for i := 0; i < d; i++ { // every operation changes the set, so every one is published
+		n := 1 + rng.Intn(len(c.pool))
+		if in[n] {
+			delete(in, n)
+			do(fmt.Sprintf("pw %d", n))
+		} else {
+			in[n] = true
+			do(fmt.Sprintf("pa %d", n))
+		}
+	}
+	do("jnew 1")
+	do("jreach 1 1")
+	do("jsync 1 c+0")
+	for i := 0; i < 140; i++ {
+		if pend, _ := c.pendingOf(c.peers[1]); pend == "-" {
+			break
+		}
+		do("ans 1 -")
+		do("del 1")
 	}
 	fmt.Fprintln(w, "end")
 	return ops
